@@ -408,26 +408,30 @@ func (r *relay) header(
 	streamEnded bool,
 	priority http2.PriorityParam,
 ) error {
-	encoded, err := r.encodeFull(headers)
-	if err != nil {
-		return fmt.Errorf("encoding headers %v: %w", headers, err)
-	}
-
-	maxPayloadLength := atomic.LoadUint32(&r.maxFrameSize)
-	// Padding is not implemented because the extra security is not needed for a development proxy.
-	// If it were used, a single padding length octet should be deducted from the max header fragment
-	// length.
-	maxHeaderFragmentLength := maxPayloadLength
-	if !priority.IsZero() {
-		maxHeaderFragmentLength -= headersPriorityMetadataLength
-	}
-	chunks := splitIntoChunks(int(maxHeaderFragmentLength), int(maxPayloadLength), encoded)
-
+	// The header block is encoded when the frame is written, not here: HPACK's
+	// dynamic table is shared by all streams, so blocks have to reach the peer in
+	// the order they were encoded, and a frame queued behind flow-controlled DATA
+	// can be overtaken by header frames of other streams.
 	r.enqueueFrame(&queuedHeaderFrame{
 		streamID:  id,
 		endStream: streamEnded,
 		priority:  priority,
-		chunks:    chunks,
+		encode: func() ([][]byte, error) {
+			encoded, err := r.encodeFull(headers)
+			if err != nil {
+				return nil, fmt.Errorf("encoding headers %v: %w", headers, err)
+			}
+
+			maxPayloadLength := atomic.LoadUint32(&r.maxFrameSize)
+			// Padding is not implemented because the extra security is not needed for a development proxy.
+			// If it were used, a single padding length octet should be deducted from the max header fragment
+			// length.
+			maxHeaderFragmentLength := maxPayloadLength
+			if !priority.IsZero() {
+				maxHeaderFragmentLength -= headersPriorityMetadataLength
+			}
+			return splitIntoChunks(int(maxHeaderFragmentLength), int(maxPayloadLength), encoded), nil
+		},
 	})
 	return nil
 }
@@ -447,19 +451,20 @@ func (r *relay) rstStream(id uint32, errCode http2.ErrCode) {
 }
 
 func (r *relay) pushPromise(id, promiseID uint32, headers []hpack.HeaderField) error {
-	encoded, err := r.encodeFull(headers)
-	if err != nil {
-		return fmt.Errorf("encoding push promise headers %v: %w", headers, err)
-	}
-
-	maxPayloadLength := atomic.LoadUint32(&r.maxFrameSize)
-	maxHeaderFragmentLength := maxPayloadLength - pushPromiseMetadataLength
-	chunks := splitIntoChunks(int(maxHeaderFragmentLength), int(maxPayloadLength), encoded)
-
+	// See header for why the block is encoded when the frame is written.
 	r.enqueueFrame(&queuedPushPromiseFrame{
 		streamID:  id,
 		promiseID: promiseID,
-		chunks:    chunks,
+		encode: func() ([][]byte, error) {
+			encoded, err := r.encodeFull(headers)
+			if err != nil {
+				return nil, fmt.Errorf("encoding push promise headers %v: %w", headers, err)
+			}
+
+			maxPayloadLength := atomic.LoadUint32(&r.maxFrameSize)
+			maxHeaderFragmentLength := maxPayloadLength - pushPromiseMetadataLength
+			return splitIntoChunks(int(maxHeaderFragmentLength), int(maxPayloadLength), encoded), nil
+		},
 	})
 	return nil
 }
